@@ -4,7 +4,9 @@
    folding: two runes are equal when they lie in one orbit of unicode.SimpleFold.  The model compares the
    smallest rune of the orbit, [canon]: for ASCII that is the upper-case letter; for the other runes it is read
    from Model/FoldTab.v (generated from Go's unicode tables).  The orbits that join ASCII and non-ASCII runes are
-   {K, k, U+212A KELVIN SIGN} and {S, s, U+017F LATIN SMALL LETTER LONG S}.  Definitions only. *)
+   {K, k, U+212A KELVIN SIGN} and {S, s, U+017F LATIN SMALL LETTER LONG S}.
+   iri.go compares with its own equalFold since the repair of C14/invalid-utf8-bytes-equal: [sfold_eqb] below;
+   typer.go (sameCollectionName) still uses strings.EqualFold.  Definitions only. *)
 From AP.Model Require Import Prelude Bytes Utf8 FoldTab.
 
 Definition ascii_canon (r : N) : N := (if (97 <=? r) && (r <=? 122) then r - 32 else r)%N.
@@ -33,7 +35,18 @@ Fixpoint nlist_eqb (a b : list N) : bool :=
 (* strings.EqualFold *)
 Definition ufold_eqb (a b : bytes) : bool := nlist_eqb (ucanon a) (ucanon b).
 
+(* ---------------------------------------------------------------- iri.go equalFold *)
+(* The comparison IRI.Equals makes since the repair: rune by rune under simple folding like strings.EqualFold, but
+   a byte that is not part of a well formed UTF-8 sequence is equal to the same byte only.  Model: the strict
+   decoding of Model/Utf8.v (an invalid byte b is the number 0x110000 + b, above every rune) under the same [canon];
+   the folding table holds runes only (fold_tab_ok), so those numbers are their own canonical form and the canonical
+   form of nothing else. *)
+Definition scanon_with (tab : list (N * N)) (s : bytes) : list N := map (canon_with tab) (srunes s).
+Definition scanon : bytes -> list N := scanon_with fold_tab.
+Definition sfold_eqb (a b : bytes) : bool := nlist_eqb (scanon a) (scanon b).
+
 (* what the proofs need of the table (a decidable condition, evaluated on the generated table):
-   every key is a non-ASCII rune, and a value below 0x80 is "K" or "S" *)
+   every key is a non-ASCII rune, a value below 0x80 is "K" or "S", and keys and values are runes (< 0x110000) *)
 Definition fold_tab_ok (tab : list (N * N)) : bool :=
-  forallb (fun kv => (128 <=? fst kv)%N && ((128 <=? snd kv)%N || (snd kv =? 75)%N || (snd kv =? 83)%N)) tab.
+  forallb (fun kv => (128 <=? fst kv)%N && ((128 <=? snd kv)%N || (snd kv =? 75)%N || (snd kv =? 83)%N)
+                     && (fst kv <? rune_limit)%N && (snd kv <? rune_limit)%N) tab.
